@@ -89,6 +89,142 @@ func scanAll(src []byte) (toks []impTok, errs int, problem string) {
 	}
 }
 
+// snapTok reads the scanner's view of its current token.
+func snapTok(sc *formula.Scanner) impTok {
+	t := impTok{Kind: sc.GetToken(), Start: sc.GetStartPos(), Pos: sc.GetTokenPos(), End: sc.GetTextPos(), NL: sc.HasPrecedingLineBreak()}
+	if t.Kind.IsLiteral() || t.Kind.IsIdentifier() || t.Kind.IsKeyword() {
+		t.Value = sc.GetTokenValue() // (the value of other tokens is whatever the last name or literal left behind)
+	}
+	return t
+}
+
+// scanRest scans to the end of input (bounded) and returns the tokens.
+func scanRest(sc *formula.Scanner, limit int) []impTok {
+	var out []impTok
+	for i := 0; i <= limit; i++ {
+		sc.Scan()
+		t := snapTok(sc)
+		out = append(out, t)
+		if t.Kind == formula.SK_EndOfFile {
+			break
+		}
+	}
+	return out
+}
+
+func sameToks(a, b []impTok) (int, bool) {
+	if len(a) != len(b) {
+		return minInt(len(a), len(b)), false
+	}
+	for i := range a {
+		if a[i] != b[i] {
+			return i, false
+		}
+	}
+	return 0, true
+}
+
+// The scanner's other entry points give the same tokens as a fresh scan: a scanner re-used for a new text (SetText), a
+// scan resumed at a token's full start (SetTextPos), and scanning continued after a look-ahead or a failed speculation
+// (LookHead / TryScan restore the position, the current token and its flags).
+var c14Reuse = core.Mon(c14, "scanner-entry-points", func(w *core.W, c *ParseCase) {
+	w.Eval(1)
+	var base []impTok
+	var problem string
+	panicked, pv := core.Call(func() { base, _, problem = scanAll(c.Src) })
+	if panicked || problem != "" {
+		return // reported by the tiling monitor
+	}
+	for i := range base {
+		if k := base[i].Kind; !(k.IsLiteral() || k.IsIdentifier() || k.IsKeyword()) {
+			base[i].Value = ""
+		}
+	}
+	w.Count("scanner_entry_point_cases")
+	if len(base) >= 3 {
+		w.Nontrivial("entry:" + string(c.Src))
+	}
+	limit := len(c.Src) + 1
+	noErr := func(msg *formula.DiagnosticMessage, pos int, length int) {}
+	bad := func(sig string, at int, got []impTok, how string) {
+		w.Violation("scanner-entry-points", "C14/"+sig, c, fmt.Sprint(base), fmt.Sprint(got), fmt.Sprintf("%s: token %d differs from a fresh scan of %s", how, at, c.Quoted()))
+	}
+	var got []impTok
+	// (a) a scanner that has scanned other texts before
+	panicked, pv = core.Call(func() {
+		sc := formula.CreateScanner([]byte("'pre\\u0041vious' + 1_0e-3 !. $x\n"), noErr)
+		scanRest(sc, 40)
+		sc.SetText([]byte("\"unterminated"))
+		scanRest(sc, 40)
+		sc.SetText(c.Src)
+		got = scanRest(sc, limit)
+	})
+	if panicked {
+		w.Violation("scanner-entry-points", "C14/scan-panic", c, "tokens", fmt.Sprint(pv), "re-used scanner on "+c.Quoted())
+		return
+	}
+	if at, ok := sameToks(base, got); !ok {
+		bad("scanner-reuse", at, got, "a scanner re-used through SetText")
+		return
+	}
+	// (b) resume at the full start of token k; (c) look ahead j tokens after k tokens, then go on
+	for _, k := range []int{0, 1, len(base) / 2, len(base) - 2} {
+		if k < 0 || k >= len(base) {
+			continue
+		}
+		panicked, pv = core.Call(func() {
+			sc := formula.CreateScanner(c.Src, noErr)
+			sc.SetTextPos(base[k].Start)
+			got = scanRest(sc, limit)
+		})
+		if panicked {
+			w.Violation("scanner-entry-points", "C14/scan-panic", c, "tokens", fmt.Sprint(pv), "SetTextPos on "+c.Quoted())
+			return
+		}
+		if at, ok := sameToks(base[k:], got); !ok {
+			bad("scanner-resume", k+at, got, fmt.Sprintf("a scan resumed with SetTextPos(%d)", base[k].Start))
+			return
+		}
+		for _, j := range []int{1, 3} {
+			var before, after, afterTry impTok
+			panicked, pv = core.Call(func() {
+				sc := formula.CreateScanner(c.Src, noErr)
+				for i := 0; i < k; i++ {
+					sc.Scan()
+				}
+				before = snapTok(sc)
+				formula.LookHead(sc, func() bool {
+					for i := 0; i < j; i++ {
+						sc.Scan()
+					}
+					return true
+				})
+				after = snapTok(sc)
+				formula.TryScan(sc, func() interface{} {
+					for i := 0; i < j; i++ {
+						sc.Scan()
+					}
+					return nil // a speculation that did not work out
+				})
+				afterTry = snapTok(sc)
+				got = scanRest(sc, limit)
+			})
+			if panicked {
+				w.Violation("scanner-entry-points", "C14/scan-panic", c, "tokens", fmt.Sprint(pv), "speculation on "+c.Quoted())
+				return
+			}
+			if after != before || afterTry != before {
+				w.Violation("scanner-entry-points", "C14/speculation-not-restored", c, fmt.Sprint(before), fmt.Sprint(after, afterTry), fmt.Sprintf("after %d tokens, looking ahead %d tokens changed the current token on %s", k, j, c.Quoted()))
+				return
+			}
+			if at, ok := sameToks(base[k:], got); !ok {
+				bad("scan-after-speculation", k+at, got, fmt.Sprintf("scanning on after a look-ahead of %d tokens at token %d", j, k))
+				return
+			}
+		}
+	}
+})
+
 var c14Tiling = core.Mon(c14, "tiling", func(w *core.W, c *ParseCase) {
 	if len(c.Src) >= 512 || w.Replay {
 		w.Cur("tiling", c)
@@ -398,6 +534,9 @@ func runC14(w *core.W) {
 		c := &ParseCase{Src: src, Gen: genName}
 		c14Tokens(w, c)
 		w.Count("token_cases")
+		if w.Counter("token_cases")%4 == 0 || genName == "mutant" {
+			c14Reuse(w, c)
+		}
 		if w.Counter("token_cases")%9973 == 1 {
 			w.Sample("tokens/"+genName, c.Quoted())
 		}
